@@ -278,6 +278,12 @@ def reference(hist):
             out.append(ref_line(l, penv))
         elif t[0] == "killtest":
             out.append("kill ok=1 | running=1 killed=1 after=0")
+        elif t[0] == "execfail":
+            # execvpe fails in the child: `<program>: <strerror(ENOENT)>` on stderr, exit code EXIT_FAILURE
+            m = int(t[2])
+            prog = b"/nonexistent-nstd-verif/args-child" if t[1] == "path" else b""
+            err = hx(prog + b": No such file or directory\n") if m & 2 else "-"
+            out.append(f"xf ok=1 pipes={m & 7} | joined=1 exit=1 eof=1 out=- err={err} after=0")
         elif t[0] == "fds":
             # no descriptor is left behind: only the pipe ends the Process object currently holds are open
             out.append(f"fds | open={sum(1 for x in st[1:4] if x)}")
@@ -435,6 +441,10 @@ def env_histories(rng, quick):
     return hs
 
 
+def execfail_lines():
+    return [f"execfail {k} {m}" for k in ("path", "empty", "blank") for m in range(8)]
+
+
 def chunks(lines, n):
     return [lines[i:i + n] for i in range(0, len(lines), n)]
 
@@ -501,7 +511,7 @@ def histories_for(ctx):
     rl, il, xl = run_lines(rng, quick), io_lines(rng, quick), exit_lines(rng, quick)
     ph = proc_histories(rng, quick)
     eh = env_histories(rng, quick)
-    hs = corpus + ph + eh + chunks(ea, 40) + chunks(ra, 40) + chunks(es + es2, 40) + chunks(rs, 40) + [c + ["fds"] for c in chunks(rl, 8) + chunks(il, 3) + chunks(xl, 8)]
+    hs = corpus + ph + eh + chunks(ea, 40) + chunks(ra, 40) + chunks(es + es2, 40) + chunks(rs, 40) + [c + ["fds"] for c in chunks(rl, 8) + chunks(il, 3) + chunks(xl, 8) + chunks(execfail_lines(), 6)]
     ctx.cov["rule"] = (
         f"corpus ({len(corpus)}) + args: every argv of <= {AMAX[quick]} words over {len(WORDS)} words "
         f"({', '.join(w.decode() for w in WORDS)}) with the option table a/alpha=flag, b=flag without long name, o/out=required value, "
@@ -511,7 +521,7 @@ def histories_for(ctx):
         f"({len(es)}){'' if quick else f' and <= 6 symbols over a, b, blank, quote, backslash ({len(es2)})'} + {len(rs)} random lines, 20 s watchdog; "
         f"run: {len(rl)} launches of the helper child through every start/open form x redirection mask x environment (empty=inherit, 1..3 variables) "
         f"with argv/environment echoed back; io: redirection masks 0..7 x payload sizes {SIZES} ({len(il)} runs, stdin payload written and "
-        f"stdout/stderr read to end-of-file, CRC-32 compared); exit: {len(xl)} exit codes through start(command)+join; Process object: every sequence of <= {3 if quick else 4} calls over {len(POPS)} calls (start, open with masks 0/1/7, join, kill, close, isRunning, read with stream selection, destructor) + random sequences ({len(ph)} histories; pid/descriptor bookkeeping, results, EINVAL; every history ends with a count of leaked descriptors), a child blocked on its stdin is killed (4 masks); environment: {len(eh)} random histories of setEnvironmentVariable/getEnvironmentVariable/getEnvironmentVariables mixed with launches that inherit the environment. "
+        f"stdout/stderr read to end-of-file, CRC-32 compared); exit: {len(xl)} exit codes through start(command)+join; Process object: every sequence of <= {3 if quick else 4} calls over {len(POPS)} calls (start, open with masks 0/1/7, join, kill, close, isRunning, read with stream selection, destructor) + random sequences ({len(ph)} histories; pid/descriptor bookkeeping, results, EINVAL; every history ends with a count of leaked descriptors), a child blocked on its stdin is killed (4 masks); an executable that cannot be started (missing file, empty and blank command line) x masks 0..7: launch succeeds, exit code EXIT_FAILURE, `<program>: No such file or directory` on the redirected stderr; environment: {len(eh)} random histories of setEnvironmentVariable/getEnvironmentVariable/getEnvironmentVariables mixed with launches that inherit the environment. "
         "distinct_nontrivial = distinct observation lines with >= 2 results / >= 2 words / a child run")
     ctx.cov["open_statements"] = [
         "run-time delivery (the child observes argv/environ as given, join returns its exit code, redirected bytes arrive intact up to "
